@@ -1,10 +1,55 @@
 import Pxv.Model.Domain
+import Pxv.Lemmas.Domain
 /-!
-C20 — domain guards accept exactly the hosts the documentation says. Property theorems only.
+C20 — domain guards accept exactly the hosts the documentation says. Property theorems only
+(helper lemmas: `Pxv/Lemmas/Domain.lean`).
 -/
 namespace Pxv.Domain
 
-/-- The router pattern of a literal guard is the guard read backwards with `/` for `.`. -/
-theorem pattern_example : pattern "sub.{p}x.com".toList = "moc/x{p}/bus".toList := by decide
+/-- **C20 (1)** A guard is accepted iff it is a syntactically valid, possibly templated, DNS name
+    under the documented rules. For every string (no bound on its length or alphabet; parameter
+    names are judged by the ASCII identifier rule `isIdent`). -/
+theorem validate_iff (s : List Char) : validate s = .ok () ↔ Grammar s := by
+  constructor
+  · intro h
+    unfold validate at h
+    split at h
+    · cases h
+    rename_i hne
+    split at h
+    · cases h
+    rename_i total htot
+    split at h
+    · cases h
+    rename_i h253
+    unfold labelsOf at htot
+    split at htot
+    · rename_i hdot
+      -- absolute form: `s = body ++ "."`
+      have hs : s = s.dropLast ++ ['.'] := eq_dropLast_snoc hdot
+      rw [hs, splitDots_snoc_dot, List.dropLast_concat] at htot
+      obtain ⟨m, hm, ht⟩ := LabelsG_of_validateLabels (splitDots_ne_nil _)
+        (fun l hl => splitDots_mem_nodot hl) 0 0 total htot
+      rw [joinDots_splitDots] at hm
+      rw [hs]
+      exact Grammar.absolute hm (by omega)
+    · obtain ⟨m, hm, ht⟩ := LabelsG_of_validateLabels (splitDots_ne_nil _)
+        (fun l hl => splitDots_mem_nodot hl) 0 0 total htot
+      rw [joinDots_splitDots] at hm
+      exact Grammar.relative hm (by omega)
+  · intro h
+    cases h with
+    | @relative body n hb hn =>
+      obtain ⟨hne, hlast⟩ := labelsG_last hb
+      have := validateLabels_of_LabelsG hb 0 0 rfl
+      simp only [validate, hne, if_false, labelsOf, hlast, this]
+      have : ¬ (0 + 1 + n - 1 > 253) := by omega
+      simpa using hn
+    | @absolute body n hb hn =>
+      have := validateLabels_of_LabelsG hb 0 0 rfl
+      have hl : (body ++ ['.']).getLast? = some '.' := by simp
+      simp only [validate, labelsOf, hl, if_true, splitDots_snoc_dot, List.dropLast_concat, this]
+      have : ¬ (0 + 1 + n - 1 > 253) := by omega
+      simpa using hn
 
 end Pxv.Domain
